@@ -29,7 +29,7 @@ def valid_device(rng: random.Random, cls=None, small=False) -> dict:
     cls = cls or rng.choice(["Device", "VirtualDevice"])
     virt = cls == "VirtualDevice"
     dim = rng.choice([2, 2, 3])
-    min_dist = rng.choice([0, 0.0, 1, 4, 5, 5.0, 2.5, 4.000001, 0.3, 1.5, 5.000001])
+    min_dist = rng.choice([0, 0.0, 1, 4, 5, 5.0, 2.5, 4.000001, 0.3, 1.5, 5.000001, 0, 2e-6, 1e-6])
     max_atoms = rng.choice(([None, None] if virt else []) + [1, 2, 3, 5, 8, 12, 30])
     max_radial = rng.choice(([None, None] if virt else []) + [5, 10, 13, 25, 50])
     fill = rng.choice(FILLS)
@@ -65,8 +65,20 @@ def gen_points(rng: random.Random, dev: dict, dim: int, n: int) -> list[list[flo
     if sp <= 0:
         sp = md
     strat = rng.choice(["lattice", "lattice", "tri", "pyth", "random", "ring", "line", "grid3"])
+    if float(dev["min_atom_distance"]) <= 2e-6 and rng.random() < 0.5:
+        strat = "micro"
     pts: list[list[float]] = []
-    if strat == "lattice":
+    if strat == "micro":
+        # distances that are exactly k * 1e-6 in double arithmetic (sqrt(x*x) = |x|):
+        # the two comparisons of the distance check sit exactly on their boundaries
+        u = 1e-6
+        base = [[0.0, 0.0], [u, 0.0], [0.0, 2 * u], [-u, 0.0], [0.0, -2 * u], [3 * u, 0.0], [0.0, 3 * u],
+                [-2 * u, 0.0], [5 * u, 0.0], [0.0, -4 * u]]
+        rng.shuffle(base)
+        pts = [list(b) for b in base[:n]]
+        while len(pts) < n:
+            pts.append([len(pts) * 1.0, 1.0])
+    elif strat == "lattice":
         w = max(1, int(math.ceil(math.sqrt(n))))
         for k in range(n):
             pts.append([(k % w) * sp, (k // w) * sp])
@@ -200,15 +212,16 @@ def gen_val(rng: random.Random) -> dict:
     ma = dev["max_atom_num"]
     sizes = [1, 2, 2, 3, 4, 5, 6, 9]
     if ma is not None:
-        sizes += [ma, ma, ma + 1, max(1, ma - 1)]
+        sizes = [k for k in sizes if k <= ma] * 2 + [ma, ma, ma + 1, max(1, ma - 1)]
     n = min(rng.choice(sizes), 14)
-    dim = rng.choice([2, 2, 2, 3]) if dev["dimensions"] == 2 else rng.choice([2, 3, 3])
+    dim = rng.choice([2] * 9 + [3]) if dev["dimensions"] == 2 else rng.choice([2, 3, 3])
     pts = gen_points(rng, dev, dim, n)
     names = rng.sample(NAMES, len(pts))
-    entry = rng.choice(["validate_register"] * 5 + ["sequence"] * 2 + ["validate_layout", "mappable",
-                                                                     "filling", "malformed"])
+    entry = rng.choice(["validate_register"] * 10 + ["sequence"] * 4 + ["validate_layout"] * 2 + ["mappable"] * 2
+                       + ["filling", "malformed"])
     layout = None
-    if entry in ("validate_layout", "mappable") or (entry != "malformed" and rng.random() < 0.45):
+    if entry in ("validate_layout", "mappable") or (entry == "filling" and rng.random() < 0.9) or (
+            entry != "malformed" and rng.random() < 0.45):
         layout = gen_layout(rng, dev, pts, dim)
         if layout is None and entry in ("validate_layout", "mappable"):
             entry = "validate_register"
@@ -272,13 +285,14 @@ def gen_dev(rng: random.Random) -> dict:
 def gen_mc(rng: random.Random) -> dict:
     dev = valid_device(rng)
     ma = dev["max_atom_num"]
-    ns = [1, 2, 3, 5, 6, 7, 8, 12, 13, 19, 20, 25, 37, 38, 43, 0, -1]
+    ns = [1, 2, 3, 5, 6, 7, 8, 12, 13, 19, 20, 25, 37, 38, 43] + [rng.randint(7, 64) for _ in range(8)]
     if ma is not None:
-        ns += [ma, ma, ma + 1]
+        ns = [k for k in ns if k <= ma] * 3 + [ma, ma, ma + 1]
+    ns += [0, -1]
     n = rng.choice(ns)
     md = float(dev["min_atom_distance"])
-    sp = rng.choice([None, None, None, md, md * (1 + 1e-9), md + 0.5, md + 1e-7, 20.0, md - 0.1, 0.0,
-                     md * (1 - 1e-12), 7.3, math.pi])
+    sp = rng.choice([None, None, None, md, md * (1 + 1e-9), md + 0.5, md + 1e-7, 20.0, md - 0.1,
+                     md * (1 - 1e-12), 7.3, math.pi, md + 1e-6, md + 2e-6, 1.0])
     if sp is not None:
         sp = float(sp)
     return dict(kind="mc", device=dev, n=n, spacing=sp)
@@ -291,6 +305,9 @@ HARD_FILLS = {0.58: [29], 0.29: [29], 0.35: [63], 0.41: [], 0.57: []}
 def gen_auto(rng: random.Random) -> dict:
     R = rng.choice([3, 4, 5, 6, 6, 8])
     md = rng.choice([1, 1.0, 1.5, 2, 1.25])
+    if rng.random() < 0.3:
+        # the mesh step (or twice it): some mesh points are then exactly min_trap_dist apart
+        md = (2 * R) / (2 * R - 1) * rng.choice([1, 1, 2])
     fill = rng.choice([0.5, 0.5, 0.58, 0.29, 0.75, 1.0, 0.35, 0.9, 0.25])
     n = rng.choice([1, 2, 3, 4, 5, 6])
     if fill in (0.58, 0.29) and rng.random() < 0.35:
@@ -320,6 +337,18 @@ def gen_auto(rng: random.Random) -> dict:
     if rng.random() < 0.4:
         ox, oy = rng.uniform(-1e-3, 1e-3), rng.uniform(-1e-3, 1e-3)
         pts = [[p[0] + ox, p[1] + oy] for p in pts]
+    elif rng.random() < 0.5:
+        # atoms on points of the candidate mesh itself (np.linspace(0, 2R, 2R) - R), two steps apart
+        num = 2 * R
+        step = (2 * R) / (num - 1)
+        side = [i * step for i in range(num)]
+        side[-1] = float(2 * R)
+        side = [v - R for v in side]
+        gridpts = [[side[i], side[j]] for i in range(0, num, 2) for j in range(0, num, 2)
+                   if side[i] ** 2 + side[j] ** 2 <= (R - 0.5) ** 2]
+        rng.shuffle(gridpts)
+        if len(gridpts) >= n:
+            pts = gridpts[:n]
     if rng.random() < 0.15 and pts:
         # an atom outside the disk or too close: the register itself is not valid
         k = rng.randrange(len(pts))
